@@ -1331,6 +1331,10 @@ func (g *mapGrid) cellOf(loc camtypes.Location) (c mapCell, ok bool) {
 // the cell.
 func bestByLocation(res *SearchResult, locm map[blob.Ref]camtypes.Location, limit int) {
 	// Calculate res.LocationArea.
+	if limit < 0 {
+		// A negative limit means no limit: there is nothing to prune.
+		return
+	}
 	if len(res.Blobs) <= limit {
 		return
 	}
@@ -1371,6 +1375,20 @@ func bestByLocation(res *SearchResult, locm map[blob.Ref]camtypes.Location, limi
 
 	var nodesKept []*SearchResultBlob
 	for {
+		if len(cellOccupants) == 0 {
+			// Fewer results with a location than limit: they are all kept.
+			// Fill up with results that have no location.
+			for _, srb := range res.Blobs {
+				if len(nodesKept) >= limit {
+					break
+				}
+				if _, ok := resBlob[srb.Blob]; !ok {
+					nodesKept = append(nodesKept, srb)
+				}
+			}
+			res.Blobs = nodesKept
+			return
+		}
 		for cellKey, occupants := range cellOccupants {
 			nodesKept = append(nodesKept, resBlob[occupants[0]])
 			if len(nodesKept) == limit {
